@@ -40,7 +40,7 @@ FailC15(c) ==
   ELSE IF mp.ast # want THEN <<"model.ast", want, mp.ast>>          \* the spelling generator disagrees with the grammar model
   ELSE IF c.outcome = "RTAMT" THEN <<>>                              \* rejected spelling: counted, not a wrong grouping
   ELSE IF c.outcome # "ok" THEN <<"parse.outcome", "ok", c.outcome>>
-  ELSE IF c.implAst # want THEN <<"spelling.ast", want, c.implAst>>
+  ELSE IF c.implKnown /\ c.implAst # want THEN <<"spelling.ast", want, c.implAst>>
   ELSE IF c.evalOut \notin ({"ok"} \cup ArithExc) THEN <<"spelling.eval", "ok", c.evalOut>>
   ELSE IF c.evalOut = "ok" /\ c.ret # c.refRet THEN <<"spelling.result", c.refRet, c.ret>>
   ELSE <<>>
